@@ -131,10 +131,22 @@ func (db *MultiBucketBackend) ListBucket(bucket string, prefix *gofakes3.Prefix,
 func (db *MultiBucketBackend) getBucketWithFilePrefixLocked(bucket string, prefixPath, prefixPart string) (*gofakes3.ObjectList, error) {
 	bucketPath := path.Join(bucket, prefixPath)
 
-	dirEntries, err := afero.ReadDir(db.bucketFs, filepath.FromSlash(bucketPath))
-	if os.IsNotExist(err) {
+	if exists, err := afero.DirExists(db.bucketFs, filepath.FromSlash(bucket)); err != nil {
+		return nil, err
+	} else if !exists {
 		return nil, gofakes3.BucketNotFound(bucket)
-	} else if err != nil {
+	}
+
+	// No key can start with a prefix whose directory part does not exist (or
+	// is a file); that is an empty listing, not a missing bucket:
+	if isDir, err := afero.IsDir(db.bucketFs, filepath.FromSlash(bucketPath)); err != nil && !os.IsNotExist(err) {
+		return nil, err
+	} else if !isDir {
+		return gofakes3.NewObjectList(), nil
+	}
+
+	dirEntries, err := afero.ReadDir(db.bucketFs, filepath.FromSlash(bucketPath))
+	if err != nil {
 		return nil, err
 	}
 
